@@ -85,7 +85,7 @@ def _ent(rng, rel, isdir):
     if rng.random() < 0.04:
         e["in_req"] = e["in_exc"] = True           # never produced by the code; the model must still agree
     if not isdir and rng.random() < 0.06:
-        e["rnopath"] = True                        # the event carried no path and nothing has filled it in yet (finding S-1)
+        e["rnopath"] = True                        # the event carried no path and nothing has filled it in yet (S-1, repaired)
     return e
 
 
@@ -205,7 +205,7 @@ class RealTable:
         return [[self.ent(i) for i in range(len(self.ents))], keys(st._changeset_storage), keys(st.requestset), keys(st.excludeset)]
 
     def world_sx(self):
-        lp, lo, lh = [], [], []
+        lp, lo, lh, ro = [], [], [], []
         prov = self.world.provs[0]
         for o in prov._mock_fs.fs_objects():
             if o.exists and o.path is not None:
@@ -213,7 +213,13 @@ class RealTable:
                 lo.append(self.oid(o.oid))
                 if o.type == o.FILE:
                     lh.append([self.oid(o.oid), self.hash(o.hash())])
-        return [lp, lo, lh]
+        rprov = self.world.provs[1]
+        for o in rprov._mock_fs.fs_objects():
+            if o.exists and o.path is not None:
+                info = rprov.info_oid(o.oid)
+                ro.append([self.oid(o.oid), self.it.path(info.path), [] if info.hash is None else [self.hash(info.hash)],
+                           1 if o.type == o.DIR else 0, 1 if info.size else 0, 1 if info.mtime else 0])
+        return [lp, lo, lh, ro]
 
     def auto_sx(self):
         a = self.case["auto"]
@@ -316,7 +322,19 @@ def run_table(case, model):
                 stats["skipped"] = "path addresses %d entries" % len(at_path)
                 return True, None, None, stats
             if op[0] == "request":
-                m_state, m_plan = model.call([2, w, before, i])
+                m_state, m_plan = model.call([2, w, before, i, 1 if how == "oid" else 0, 0])
+                live_remote = e[REMOTE].oid is not None and t.world.provs[1].exists_oid(e[REMOTE].oid)
+                if how == "oid" and live_remote and raised is not None:
+                    return False, ("law request_by_id_never_raises fails on the real code: smart_sync_oid of an object the remote "
+                                   "provider has raised %s" % raised), dict(entry=i), stats
+                # the laws on the real answers first (a failing input of a law is a counterexample, not just a difference)
+                is_dir = e[REMOTE].otype == t.DIRECTORY
+                was_req, was_exc = case["ents"][i]["in_req"], case["ents"][i]["in_exc"]
+                if is_dir:
+                    if (e in t.st.requestset) != was_req or (e in t.st.excludeset) != was_exc:
+                        return False, "law request_of_folder_registers_nothing fails on the real code", dict(entry=i), stats
+                elif e not in t.st.requestset or e in t.st.excludeset:
+                    return False, "law request_registers fails on the real code", dict(entry=i), stats
                 if m_plan == []:
                     if raised != "AttributeError":
                         return False, "request: model says the call raises, real: %r" % raised, None, stats
@@ -328,8 +346,6 @@ def run_table(case, model):
                     stats["parents_first"] = len(t.sync_calls) - 1
                 if canon_state(m_state) != canon_state(after):
                     return False, "request: state after differs", dict(real=canon_state(after), model=canon_state(m_state)), stats
-                if e not in t.st.requestset or e in t.st.excludeset:
-                    return False, "law request_registers fails on the real code", dict(entry=i), stats
                 return True, None, None, stats
             m_state, m_acts = model.call([5, w, before, i, 0 if how == "oid" else 1])
             real_acts = [[0, k] for k in t.sync_calls]
